@@ -217,8 +217,11 @@ Section Cancel.
     pose proof (k_policy_apply_filter s (p_id p)) as P.
     destruct (policy_apply_filter sc s (p_id p)) as [s1 f1]. cbn [fst] in P.
     destruct (match f1 with FPass => _ | _ => _ end); try ks.
-    pose proof (k_kubectl_apply s1 l) as K. destruct (kubectl_apply sc s1 l) as [s2 r]. cbn [fst] in K.
-    pose proof (k_tr _ _ _ P K) as PK. destruct r; ks.
+    assert (M : kstep s1 (fst (mutate sc s1 l))) by (apply k_same; [apply mutate_tr|apply mutate_abort]).
+    destruct (mutate sc s1 l) as [sm okm]. cbn [fst] in M.
+    pose proof (k_tr _ _ _ P M) as PM. destruct okm; cbn [negb]; [|ks].
+    pose proof (k_kubectl_apply sm l) as K. destruct (kubectl_apply sc sm l) as [s2 r]. cbn [fst] in K.
+    pose proof (k_tr _ _ _ PM K) as PK. destruct r; ks.
   Qed.
 
   Lemma k_prune_one pl locals g uids s p : kstep s (prune_one sc pl locals g uids s p).
